@@ -40,3 +40,5 @@ func (a *Audio) VerifParts() []interface{} {
 func (a *Audio) VerifSetChans(l, r chan float32) { a.l, a.r = l, r }
 func (a *Audio) VerifChans() (chan float32, chan float32) { return a.l, a.r }
 func (a *Audio) VerifCh3On() bool { return a.ch3.enabled }
+
+func (a *Audio) VerifTicks() uint64 { return a.ticks }
